@@ -208,6 +208,7 @@ def run(report, tier, seed):
     s.run(report)
     concrete_history(report)
     hashseed_sweep(report)
+    thread_probe(report)
 
 
 HIST = r'''
@@ -223,6 +224,7 @@ def norm(sheets):
     return [(t, build.a1(c)) for t, c in sheets]
 pa = build.write_xlsx(os.path.join(d, 'a.xlsx'), norm(A))
 pb = build.write_xlsx(os.path.join(d, 'b.xlsx'), norm(B))
+pu = build.write_xlsx(os.path.join(d, 'u.xlsx'), norm([('Main', {'A1': 5, 'B1': 'eval(1)', 'C1': '__import__("os")'}), ('Other', {'A1': 'exec(2)'})]))
 mode = sys.argv[1]
 out = {}
 if mode == 'fresh':
@@ -230,6 +232,8 @@ if mode == 'fresh':
     out['b_entry'] = Parser().disable_safety_check().set_excel_file_path(pb).set_entrypoint_cell(Cell(0, 3, 0)).get_translation()
     out['b_entry_by_title'] = Parser().disable_safety_check().set_excel_file_path(pb).set_entrypoint_cell(Cell('Other', 'B', '1')).get_translation()
     out['b_entry_by_title_again'] = out['b_entry_by_title']
+    out['b_safe_after_unsafe'] = Parser().enable_safety_check().set_excel_file_path(pb).get_translation()
+    out['b_safe_after_rejected'] = out['b_safe_after_unsafe']
 else:
     Parser().disable_safety_check().set_excel_file_path(pa).get_translation()
     p = Parser().disable_safety_check().set_excel_file_path(pa)
@@ -243,6 +247,20 @@ else:
     out['b_entry_by_title'] = q.set_excel_file_path(pb).get_translation()
     # the caller's Cell object handed to a second parser afterwards
     out['b_entry_by_title_again'] = Parser().disable_safety_check().set_excel_file_path(pb).set_entrypoint_cell(c).get_translation()
+    # a workbook with suspicious cells was read earlier in the process (check off, other Parser; then check on and rejected)
+    Parser().disable_safety_check().set_excel_file_path(pu).get_translation()
+    try:
+        out['b_safe_after_unsafe'] = Parser().enable_safety_check().set_excel_file_path(pb).get_translation()
+    except Exception as e0:
+        out['b_safe_after_unsafe'] = f'{type(e0).__name__}: {e0}'[:200]
+    try:
+        Parser().enable_safety_check().set_excel_file_path(pu).get_translation()
+        out['b_safe_after_rejected'] = 'the unsafe workbook was not rejected'
+    except Exception as e:
+        try:
+            out['b_safe_after_rejected'] = Parser().enable_safety_check().set_excel_file_path(pb).get_translation()
+        except Exception as e2:
+            out['b_safe_after_rejected'] = f'{type(e2).__name__}: {e2}'[:200]
 import shutil; shutil.rmtree(d, ignore_errors=True)
 print(json.dumps(out))
 '''
@@ -270,7 +288,7 @@ def concrete_history(report):
                          f'translation of b ({bad}) depends on the earlier translation of a')
     else:
         report.condition('history.real_chain', 'concrete', 'holds', time.time() - t0, 2,
-                         'concrete differential (2 workbooks, whole-file, entry-point by index and by sheet title with the sheet at another position, the same Cell object reused), not a solver verdict')
+                         'concrete differential (2 workbooks, whole-file, entry-point by index and by sheet title with the sheet at another position, the same Cell object reused, a clean workbook with the check on after a suspicious one was read / rejected), not a solver verdict')
 
 
 HASHSEED = r'''
@@ -286,6 +304,55 @@ p = build.write_xlsx(os.path.join(d, 'w.xlsx'), [(t, build.a1(c)) for t, c in W]
 print(hashlib.sha256(Parser().disable_safety_check().set_excel_file_path(p).get_translation().encode()).hexdigest())
 shutil.rmtree(d, ignore_errors=True)
 '''
+
+
+THREADS = r'''
+import sys, os, hashlib, tempfile, shutil, threading
+sys.path.insert(0, %(verif)r)
+from vlib import build
+from excel2pycl import Parser
+d = tempfile.mkdtemp(prefix='c09t_', dir=%(work)r)
+paths = []
+for k in range(4):
+    # different workbooks whose formula cells sit at the same coordinates
+    W = [('Main', {'A1': '=B1+%%d' %% k, 'B1': '=C1*2', 'C1': k + 1, 'A2': '=SUM(A1:C1)', 'D1': '=IF(A1>3,"p","q")&Other!A1'}), ('Other', {'A1': '=Main!C1+%%d' %% k})]
+    paths.append(build.write_xlsx(os.path.join(d, 'w%%d.xlsx' %% k), [(t, build.a1(c)) for t, c in W]))
+def tr(p):
+    try:
+        return hashlib.sha256(Parser().disable_safety_check().set_excel_file_path(p).get_translation().encode()).hexdigest()
+    except Exception as e:
+        return f'{type(e).__name__}: {e}'[:120]
+seq = [tr(p) for p in paths]
+bad = []
+for rnd in range(3):
+    res = [None] * 4
+    def work(i):
+        res[i] = tr(paths[i])
+    ts = [threading.Thread(target=work, args=(i,)) for i in range(4)]
+    [t.start() for t in ts]; [t.join() for t in ts]
+    bad += [(rnd, i, res[i]) for i in range(4) if res[i] != seq[i]]
+shutil.rmtree(d, ignore_errors=True)
+print(repr(bad[:3]))
+'''
+
+
+def thread_probe(report):
+    """concrete (labelled): four threads, each with its own Parser and workbook (formula cells at the same coordinates), three rounds; every text
+    must equal the sequentially produced one"""
+    from vlib import VERIF, WORK
+    t0 = time.time()
+    work = os.path.join(WORK, 'C09')
+    os.makedirs(work, exist_ok=True)
+    r = subprocess.run([sys.executable, '-W', 'ignore', '-c', THREADS % dict(verif=VERIF, work=work)], capture_output=True, text=True, timeout=600, env=dict(os.environ))
+    if r.returncode != 0:
+        report.condition('threads.real_chain', 'concrete', 'inconclusive', time.time() - t0, 0, r.stderr[-300:])
+        return
+    out = r.stdout.strip().splitlines()[-1]
+    if out != '[]':
+        report.condition('threads.real_chain', 'concrete', 'violated', time.time() - t0, 12, out[:300])
+        report.violation('threads.real_chain', '4 threads x 3 rounds, own Parser and workbook each', f'a translation made beside other threads differs from the sequential one: {out[:250]}')
+    else:
+        report.condition('threads.real_chain', 'concrete', 'holds', time.time() - t0, 12, '12 threaded translations equal the sequential texts (concrete probe, not a solver verdict)')
 
 
 def hashseed_sweep(report):
